@@ -49,16 +49,28 @@ def dyadic_init(model, seed=0, den=16, lim=24):
 # program grammar
 # ---------------------------------------------------------------------------------------------------------------------
 class T1(nn.Module):
-    """pad -> Conv1d(cin, C, K, dilation=d0, stride=s) -> ReLU -> Conv1d(C, 2, 1)   (causal left padding)"""
+    """pad -> Conv1d(cin, C, K, dilation=d0, stride=s) -> ReLU -> Conv1d(C, 2, 1) [-> tail]   (causal left padding)
+    tail: '' | 'relu' (output reached through an activation) | 'add' (through a residual sum) | 'lsm' (log_softmax)"""
 
-    def __init__(self, K=3, d0=1, s=1, C=2, cin=1, bias=True):
+    def __init__(self, K=3, d0=1, s=1, C=2, cin=1, bias=True, tail=''):
         super().__init__()
         self.pad = nn.ConstantPad1d(((K - 1) * d0, 0), 0)
         self.c0 = nn.Conv1d(cin, C, K, dilation=d0, stride=s, bias=bias)
         self.c1 = nn.Conv1d(C, 2, 1)
+        self.tail = tail
+        if tail == 'add':
+            self.c1b = nn.Conv1d(C, 2, 1)
 
     def forward(self, x):
-        return self.c1(torch.relu(self.c0(self.pad(x))))
+        h = torch.relu(self.c0(self.pad(x)))
+        y = self.c1(h)
+        if self.tail == 'relu':
+            y = torch.relu(y)
+        elif self.tail == 'add':
+            y = torch.relu(y + self.c1b(h))
+        elif self.tail == 'lsm':
+            y = F.log_softmax(y, dim=1)
+        return y
 
 
 class T2(nn.Module):
